@@ -50,7 +50,9 @@ type hEnv struct {
 	age func() error
 	// ageMinSize overrides the number of events kept after ageing (default 2)
 	ageMinSize int
-	cleanup    func()
+	// litter drops a stale "<store file>.tmp" (file-backed environments only)
+	litter  func() error
+	cleanup func()
 	probeSeq   int
 	// store, when set, can be told to fail the next Store call; a step
 	// carrying failStore: true arms it for exactly that call. storeFailed
@@ -129,6 +131,13 @@ func openFile() (*hEnv, error) {
 		h.engine.Close()
 		h.engine = nil
 		return open()
+	}
+	h.litter = func() error {
+		junk := make([]byte, 1<<20)
+		for i := range junk {
+			junk[i] = 0xA5
+		}
+		return os.WriteFile(path+".tmp", junk, 0o644)
 	}
 	h.age = func() error {
 		h.engine.Close()
@@ -420,6 +429,15 @@ func (h *hEnv) execStep(step bson.D) (res bson.D, perr error) {
 		}
 		h.engine.Abort(txn)
 		return finish(bson.D{{Key: "err", Value: "aborted"}})
+	case "litter":
+		// what a crashed earlier write leaves behind: a temp file next to the
+		// store file, longer than anything the next commits will write
+		if h.litter != nil {
+			if err := h.litter(); err != nil {
+				return nil, fmt.Errorf("harness: %v", err)
+			}
+		}
+		return bson.D{{Key: "err", Value: ""}}, nil
 	case "age":
 		if h.age == nil {
 			return bson.D{{Key: "err", Value: ""}}, nil
